@@ -50,6 +50,8 @@ def parseEv (line : String) : Option Ev :=
   | ["unop", sel, a] => do some (.unop sel (â† parseArg a))
   | ["binop", sel, a, b] => do some (.binop sel (â† parseArg a) (â† parseArg b))
   | ["madd", a, m, c] => do some (.madd (â† parseArg a) (â† parseArg m) (â† parseArg c))
+  | ["sum3", a, b, c] => do some (.sum3 (â† parseArg a) (â† parseArg b) (â† parseArg c))
+  | ["sum4", a, b, c, d] => do some (.sum4 (â† parseArg a) (â† parseArg b) (â† parseArg c) (â† parseArg d))
   | _ => none
 
 def fmtErr : Err â†’ String
@@ -78,11 +80,18 @@ def mustList (info : BuildInfo) : List Nat :=
     | some x => (srcKind x).isNone && !x.dce
     | none => false
 
-def selfValidate (d : Def) (info : BuildInfo) : Bool :=
+/-- the polynomials of both ring programs stay small enough to normalise (else: skipped) -/
+def tractable (objs : List Obj) (consts : List Rat) (units : List EUnit) : Bool :=
+  match srcProg objs, emProg consts units with
+  | some sp, some ep => withinBudget 3000 [] sp && withinBudget 3000 [] ep
+  | _, _ => true
+
+def selfValidate (d : Def) (info : BuildInfo) : String :=
   let units := (d.units.zip info.origins).map fun (u, o) =>
     ({ cls := u.cls, rate := u.rate, special := u.special, inputs := u.inputs, nOut := u.outs.length,
        origin := some o } : EUnit)
-  validate info.objs0 (mustList info) d.consts units
+  if !tractable info.objs0 d.consts units then "s"
+  else if validate info.objs0 (mustList info) d.consts units then "1" else "0"
 
 def hexVal (c : Char) : Option Nat :=
   if c.isDigit then some (c.toNat - '0'.toNat)
@@ -122,7 +131,8 @@ def validateReal (info : BuildInfo) (hex : String) (origins : List String) : Str
             ({ cls := String.fromUTF8! (ByteArray.mk u.cls.toArray), rate := u.rate.toNat, special := u.special,
                inputs := u.inputs.map fun p => (p.1, p.2.toNat), nOut := u.outs.length,
                origin := originObj info tok } : EUnit)
-          if validate info.objs0 (mustList info) consts units then "VALID" else "INVALID"
+          if !tractable info.objs0 consts units then "SKIP too-large"
+          else if validate info.objs0 (mustList info) consts units then "VALID" else "INVALID"
 
 partial def loop (h out : IO.FS.Stream) (name : String) (pnames : List (String Ã— Nat))
     (evs : List Ev) (bad : Bool) (last : Option BuildInfo) : IO Unit := do
@@ -150,7 +160,7 @@ partial def loop (h out : IO.FS.Stream) (name : String) (pnames : List (String Ã
         | none => out.putStrLn ("ERR WRITE")
         | some bytes =>
           out.putStrLn (fmtDef d ++ " B=" ++ String.join (bytes.map hexByte)
-            ++ (if selfValidate d info then " V=1" else " V=0"))
+            ++ (" V=" ++ selfValidate d info))
         loop h out "" [] [] false (some info)
   else if l.startsWith "validate" then
     match l.splitOn " ", last with
